@@ -229,82 +229,72 @@ Ref // c164
 }
     // c169
 ")).
-Eval vm_compute in ("<<<M213>>>" ++ check (runes_of_ascii "
-packet body
-{@tag(
-    3 ) i16 options1 ,  repeat string
-body ,
-@calculatedFrom( // trailing space 
-""a\""b""
-) x_y_z @calculatedFrom(
-""a\\"") `it's` , match o as BodyLength
-{ 00
-:
-pack,
-1 : u	,
-[255,255,""// no comment"" ]
-    : Packet	[ 65535 ] :  i64_ , }
-// @lengthOf(
-//
-,// a // b
-@calculatedFrom( // c
-""" ++ [233]%N ++ runes_of_ascii "t" ++ [233]%N ++ runes_of_ascii """ ) string// `tick` ""quote"" 'q'
-len `tab	here`,
-    @tag( 0123456789
-) repeat
-    //	t
-    matchKey A `a\`,
-    i8i8 Packet , stringy @calculatedFrom( ""x y"" ) ,f32a As
-`crlf
-line` ,u128{ repeat
-    int  {
-    repeat
-    zchar[255 ] a1`{ , }`
+Eval vm_compute in ("<<<M279>>>" ++ check (runes_of_ascii "  root packet
+    crc {	uint32
+repeatCount //
+@lengthOf( // a // b
+MetaDataX	) `say ""hi""` ,
+    @tag( 65535 ) A {
+    u128 , u8x	{ repeatCount  @lengthOf( As )// c
+,// packet A { u8 x, }
+i32	_x@calculatedFrom(//	t
+""" ++ [128512]%N ++ runes_of_ascii """	), } , } // c
 ,
-// a // b
-// a // b
-match calculatedFrom as body//	t
-{
-    0 // " ++ [27880; 37322]%N ++ runes_of_ascii "
-:body	42
-    // c
-    :tag // @lengthOf(
-, ""1""	:packetx , ""it's"":  roots,}, i32 u @calculatedFrom(// " ++ [128512]%N ++ runes_of_ascii " emoji
-""a\\"" ) ,
-}	,
-string_`crlf
-line`, _x  , repeat lengthOf crc ,	}, // " ++ [27880; 37322]%N ++ runes_of_ascii "
+@lengthOf(As ) @tag(  0 ) @tag(4294967296 ) string metadata ,
+string lengthOf // `tick` ""quote"" 'q'
+@lengthOf(f32a) , @tag( 3 )string packetx,	@lengthOf( Pad) @lengthOf( packetx ) BodyLength @calculatedFrom( ""a	b"" )
+, repeat u8x
+{ zchar[ 3 ]
+    tag `doc` , match As as leftPad
+    { [
+    10 ,
+3 , 7 ,
+""abc"" , 42 // @lengthOf(
+]
+:
+A
+, } , match Header as falsey { 42
+// `tick` ""quote"" 'q'
+// trailing space 
+:
+    msg_type
+    , 00
+: A
+1 :
+charz ,""// no comment"" : int // @lengthOf(
+,	0123456789 :chars , 4294967296
+: x } ,
 }
-MetaData rootA {
-uint8	tag , string	Z9_ `u8 x,` ,
-    f64 float ,
-    Logon
-falsey`a\`
-, } packet len{  char[] u	`// not a comment`, char[] Header
-`// not a comment`	, string charz
-// a // b
-/// triple
-`tab	here` ,
+    /// triple
+    , @tag(
+10 ) @tag(//x
+007 )
+@calculatedFrom( ""`tick`""
+    )i8i8 @lengthOf(
     //
-    @leftPad
-    // packet A { u8 x, }
-    ( )@lengthOf(
-a1)
-// " ++ [128512]%N ++ runes_of_ascii " emoji
-//x
-len
-crc, @leftPad ( ' ' )Packet @calculatedFrom(""" ++ [128512]%N ++ runes_of_ascii """ ) , repeat uint8 a1
-, match
-    T as As { ""packet"": Logon , [	""" ++ [128512]%N ++ runes_of_ascii """
-    , 0 ]
-: i64_ , [ ""packet"" , 7
-    ]
-    : string_ ,
-} , repeat//
-zchar[
-007 ] zchar `{ , }` ,
-    }
-")).
+    charz ),
+    char[ 7] Header
+, } packet
+lengthOf // @lengthOf(
+{match metadata
+    // " ++ [128512]%N ++ runes_of_ascii " emoji
+    as asx{ 7 // packet A { u8 x, }
+: //
+float  ,
+    // " ++ [128512]%N ++ runes_of_ascii " emoji
+    """ ++ [233]%N ++ runes_of_ascii "t" ++ [233]%N ++ runes_of_ascii """:
+stringy
+, """ ++ [28040; 24687]%N ++ runes_of_ascii """ :
+BodyLength , 7 : leftPad , } , @lengthOf(MetaDataX
+)repeat zchar[ 7 ]float , @tag( 0
+    )matchKey @calculatedFrom(""packet""
+    ) // packet A { u8 x, }
+, }packet Pad{ options1 @lengthOf(rootA ),} root // c
+packet BodyLength{
+string uint8x
+//
+// " ++ [27880; 37322]%N ++ runes_of_ascii "
+@lengthOf( Z9_) , } // c")).
 Eval vm_compute in ("<<<M384>>>" ++ check (runes_of_ascii "options {
 	StringPrefixLenType = u16;
 	ArrayPrefixLenType = u16;
@@ -451,55 +441,42 @@ OrderId // c61
 , Reject , } // c67a
   // c67b
 ")).
-Eval vm_compute in ("<<<M1913>>>" ++ check (runes_of_ascii "options {
-    // " ++ [27880; 37322]%N ++ runes_of_ascii "
-    //x
-    float = char[];
-    Header = false
-    //
-    /// triple
-}
-
-// `tick` ""quote"" 'q'
-options {
-    x = char[];
-}
-
-MetaData i64_ {
-    f64 As `
-        `,
-    repeatCount MetaDataX,
-    repeatCount u128,
-    metadata msg_type `tab	here`,
-}
-
-packet options1 {
-    repeat char[0123456789] T,
-    @tag(65535)
-    //x
-    @calculatedFrom(""CRC32"")
-    @calculatedFrom(""" ++ [28040; 24687]%N ++ runes_of_ascii """)
-    repeat string Logon,
-    @lengthOf(u128)
-    stringy {
-        string_ x,
+Eval vm_compute in ("<<<M1656>>>" ++ check (runes_of_ascii "packet u128 {
+    @rightPad(' ')
+    i64_ {
+        Logon,
+        char[4294967296] MetaDataX @calculatedFrom(""" ++ [28040; 24687]%N ++ runes_of_ascii """),
     },
-    @tag(10)
-    u64 tag @lengthOf(roots),
-    Foo @lengthOf(Foo) `// not a comment`,
-    string pack `a\`,
-    match A as charz {
-        [3] : x,
+    rootA {
+        zchar[1] rootA,
+        asx {
+            rootA @calculatedFrom(""abc""),
+            repeat uint16 x_y_z,
+            // packet A { u8 x, }
+            zchar[42] stringy,
+            body,
+        },
     },
-    @tag(42)
-    f64 msg_type @lengthOf(trueish),
-    match pack as options1 {
-        """ ++ [28040; 24687]%N ++ runes_of_ascii """ : string_,
-        [65535, 7, ""a\""b"", 7] : f32a,
-        4294967296 : o,
-    },
-    char[] falsey,
-}// " ++ [128512]%N ++ runes_of_ascii " emoji")).
+    @leftPad('\x00')
+    char[3] Z9_ @lengthOf(roots) `" ++ [233]%N ++ runes_of_ascii "`,
+    @lengthOf(charz)
+    @leftPad('0')
+    @calculatedFrom(""a\""b"")
+    zchar[7] a1 @calculatedFrom(""\" ++ [233]%N ++ runes_of_ascii """) `// not a comment`,
+    @lengthOf(lengthOf)
+    repeat i16 chars,
+    int {
+        //	t
+        zchar[1] calculatedFrom `line1
+                line2`,
+        Packet `" ++ [28040; 24687; 31867; 22411]%N ++ runes_of_ascii "`,
+    },// " ++ [128512]%N ++ runes_of_ascii " emoji
+    @rightPad('\x00')
+    zchar[255] repeatCount @calculatedFrom(""\" ++ [233]%N ++ runes_of_ascii """),
+    repeat char[] Pad `a\`,
+    @lengthOf(pack)
+    i8 int,
+}")).
 Eval vm_compute in ("<<<M1353>>>" ++ check (runes_of_ascii "options {
     StringPrefixLenType = u16;
     ArrayPrefixLenType = u32;
@@ -543,426 +520,422 @@ root packet Order {
     u16 Note @calculatedFrom(""CRC32""),
 }
 ")).
-Eval vm_compute in ("<<<M1360>>>" ++ check (runes_of_ascii "options {
-    StringPrefixLenType = u8;
-    ArrayPrefixLenType = u32;
-    FixedStringPadFromLeft = true;
-    FixedStringPadChar = ' ';
+Eval vm_compute in ("<<<M1641>>>" ++ check (runes_of_ascii "packet u128 {
+    repeat char[65535] float,
 }
-packet Leg {
+
+options {
+    f32a = char[];
 }
-packet Heartbeat {
-    zchar[6] msgKind,
-    @rightPad('0') char[3] Qty,
-    zchar[9] Side2,
-    i8 Acct,
-}
-packet Logout {
-    int8 x,
-}
-packet Order {
-    char[] Acct,
-    zchar[8] count,
-    u32 OrderId,
-    uint8 lastPx,
-    u16 clOrdID,
-    zchar[7] Note,
-}
-root packet Reject {
-    @leftPad(' ') char[8] Side2,
-    i8 clOrdID,
-    repeat f32 x,
-    u32 lastPx,
-    match lastPx as Body {
-        [30, 147] : Heartbeat,
-        134 : Leg,
-        183 : Logout,
-        40 : Order,
+
+packet _x {
+    @rightPad('0')
+    // packet A { u8 x, }
+    @lengthOf(i8i8)
+    @lengthOf(lengthOf)
+    repeat Z9_ `crlf
+    line`,
+    string_ {
+        // `tick` ""quote"" 'q'
+        // c
+        zchar[7] x_y_z,
+        Header x `line1
+        line2`,
+    },//	t
+    @leftPad()
+    match float as x_y_z {
+        """ ++ [28040; 24687]%N ++ runes_of_ascii """ : metadata,
+        007 : A,
+        00 : falsey,
+        0123456789 : Foo,
+        0123456789 : zchar,
     },
-    u16 Ref @calculatedFrom(""CRC32""),
+    @calculatedFrom(""1"")
+    @tag(0)
+    char[00] options1,
 }
-")).
-Eval vm_compute in ("<<<M247>>>" ++ check (runes_of_ascii "
-options { leftPad // packet A { u8 x, }
-= 0
-;
-    //
-    Logon
-    =
-char // `tick` ""quote"" 'q'
-i64_ = '\x00'
-; }
-options { crc =
-i32	; matchKey =
-255
-    leftPad = ' ' ; metadata= 42// trailing space 
-; packetx =10
-    }
-root packet//
-A { @calculatedFrom( ""x y"" // c
-)/// triple
-zchar[ 00]
-f32a, @tag(
-255 )
-    zchar[
-0123456789 ]	a1
-@lengthOf(As )`" ++ [28040; 24687; 31867; 22411]%N ++ runes_of_ascii "`
-    /// triple
-    , int16 body, // `tick` ""quote"" 'q'
-uint64
-x
-@calculatedFrom(""1""
-//	t
-// " ++ [128512]%N ++ runes_of_ascii " emoji
-) // packet A { u8 x, }
-`line1
-line2` ,@lengthOf( Logon )char[
-    0// packet A { u8 x, }
-]float@calculatedFrom(
-""abc"" ) ,
-} MetaData u128 { }
-")).
-Eval vm_compute in ("<<<M1121>>>" ++ check (runes_of_ascii "// top
-root // c0
-packet // c1
-_x
-    // c2
-{ match
-    // c4
-Foo // c5
-as // c6a
-  // c6b
-Z9_ {
-    // c8
-""a	b"" // c9a
-  // c9b
-: // c10
-Pad // c11
-,
-    // c12
-} , // c14
-repeat // c15a
+
+packet Pad {
+    u16 body @lengthOf(stringy),
+}
+
+options {
+    BodyLength = '0'
+    msg_type = ""a\""b"";
+}")).
+Eval vm_compute in ("<<<M1735>>>" ++ check (runes_of_ascii "  packet float  
+      // c1
+
+	{	// c2
+@rightPad 	 // c3a
+	// c3b
+      ( 	 // c4a
+// c4b
+    )// c5a
+  	// c5b
+rootA  // c6
+
+@lengthOf(  // c7a
+// c7b
+	trueish  // c8
+) 
+  // c9
+  , 
+        // c10
+stringy  // c11a
+    // c11b
+  @lengthOf( 	 // c12a
+
+  // c12b
+      matchKey ) 
+	    // c14
+    	,// c15a
   // c15b
-x `line1
-line2`
-    // c17
-, // c18
-@rightPad // c19a
-  // c19b
-(
-    // c20
-' ' // c21
-) // c22
-@calculatedFrom( ""a\\""
-    // c24
-) // c25a
-  // c25b
-metadata MetaDataX
-    // c27
-, @tag(
-    // c29
-0 ) // c31
-Logon int
-    // c33
-``
-    // c34
-,
-    // c35
-} // c36
-options // c37
-{
-    // c38
-T // c39
-= // c40a
-  // c40b
-'\x00' } // c42a
-  // c42b
+	char[ 4294967296 ] 
+	    // c18
+pack@lengthOf(
+        // c20
+    uint8x
+	// c21
+
+  ) 	 // c22a
+  // c22b
+  ,
+// c23
+    } // c24
+  root// c25
+  	packet
+	trueish
+{ 
+	    // c28
+    	repeat
+    uint64
+
+// c30
+	u128 
+// c31
+`line1
+line2`// c32
+
+, 
+
+// c33
+  } 
+
+// c34
 ")).
-Eval vm_compute in ("<<<M1861>>>" ++ check (runes_of_ascii "packet  /// triple
-  matchKey {
-	float32  float
+Eval vm_compute in ("<<<M1727>>>" ++ check (runes_of_ascii "
+options	{
 
-    ,
-@calculatedFrom(
+rootA
 
-""a\\""  // " ++ [27880; 37322]%N ++ runes_of_ascii "
-    )
-@rightPad
+=
+4294967296;
+falsey =""a\""b""; As = 
 
-(	'\x00'
-	)
+    // @lengthOf(
+  /// triple
+	"""" ;
+packetx  =
+""packet""
 
-    i16 
-tag
-    @calculatedFrom(""abc"" )
-, repeat zchar[  255
-]
-    pack
-	,
+    i8i8= true
+;
 
-    @lengthOf(
-	Z9_)
-	tag
-    ,
-
-    }// trailing space 
-root
-
-    packet
-
-    rootA
-{ repeat
-
-    metadata 
-{
-	Logon
-
-    , }	,
-@tag(10
-
-)  @lengthOf( A	)
-	@tag(  007)	u32 options1,  match float
-as
+    } 	 // `tick` ""quote"" 'q'
+  packet
+x {
+    repeat zchar 
+rootA	,
+	char[]	pack
+	`// not a comment`
+, 
+@tag(  00
+)	@tag(
+0123456789
+)
 u
 
-{	0123456789
-:u8x
-	, 
-}
+@calculatedFrom( ""packet""	) 
+`u8 x,` ,
 
-    , } 	 // " ++ [27880; 37322]%N ++ runes_of_ascii "
-    root  packet
-lengthOf{ 
-}
+    Header { 
+zchar[ 00  ]
+body ,
+    a1
+@calculatedFrom( 	 // " ++ [128512]%N ++ runes_of_ascii " emoji
+	""it's"" ) `" ++ [233]%N ++ runes_of_ascii "`  ,
 
-")).
-Eval vm_compute in ("<<<M1297>>>" ++ check (runes_of_ascii "packet A { // c2a
-  // c2b
-u8
-    // c3
-a ,
-    // c5
-} // c6a
-  // c6b
-packet B // c8
-{ // c9
-u16
-    // c10
-b // c11
-, // c12
-} // c13a
-  // c13b
-root // c14a
-  // c14b
-packet // c15a
-  // c15b
-P
-    // c16
-{ u8 // c18a
-  // c18b
-K // c19
-, match // c21
-K // c22a
-  // c22b
-as // c23
-M // c24
-{ // c25a
-  // c25b
-1 : // c27a
-  // c27b
-A // c28a
-  // c28b
-,
-    // c29
-1
-    // c30
-: B
-    // c32
-,
-    // c33
-} // c34a
-  // c34b
-,
-    // c35
-} ")).
-Eval vm_compute in ("<<<M1679>>>" ++ check (runes_of_ascii "options {
-    As = zchar[4294967296];
-}//	t
-
-packet len {
-    @lengthOf(_x)
-    match lengthOf as string_ {
-        [4294967296] : i64_,
-        ""a	b"" : o,
-    },
-    leftPad @calculatedFrom(""`tick`""),
-    @leftPad('\x00')
-    repeat charz msg_type,
-    repeat i8 Foo,
-}
-
-packet msg_type {
-    //x
-    // @lengthOf(
-    @leftPad('0')
-    u64 repeatCount @calculatedFrom(""" ++ [28040; 24687]%N ++ runes_of_ascii """),// packet A { u8 x, }
-}")).
-Eval vm_compute in ("<<<M1265>>>" ++ check (runes_of_ascii "// top
-packet // c0
-B // c1
-{ // c2
-u8 // c3
-a , // c5a
-  // c5b
-} // c6
-root // c7
-packet P // c9a
-  // c9b
-{ // c10a
-  // c10b
-u8 // c11
-K , // c13a
-  // c13b
-match K // c15a
-  // c15b
-as // c16a
-  // c16b
-Body { // c18
-1 :
-    // c20
-B , }
-    // c23
-, // c24a
-  // c24b
-u16 // c25a
-  // c25b
-L // c26
-@lengthOf( Body
-    // c28
-)
-    // c29
-,
-    // c30
-} ")).
-Eval vm_compute in ("<<<M1765>>>" ++ check (runes_of_ascii "options {
-    u = 7
-    // " ++ [27880; 37322]%N ++ runes_of_ascii "
-    roots = zchar[65535]
-    msg_type = """ ++ [233]%N ++ runes_of_ascii "t" ++ [233]%N ++ runes_of_ascii """;
-    x = false
-}
-
-MetaData string_ {
-    char[42] i8i8 `" ++ [28040; 24687; 31867; 22411]%N ++ runes_of_ascii "`,
-    u8 x_y_z,
-    packetx lengthOf ``,
-    T Header `line1
-        line2`,
-    char[] u8x `two words`,
-}
-
-packet float {
-    calculatedFrom,
-    @rightPad('0')
-    char[3] u128,
-}")).
-Eval vm_compute in ("<<<M1381>>>" ++ check (runes_of_ascii "options
-{
-
-    LittleEndian= 
-true; }  packet
-Logon	{	u8	x 
-,
-
-string
-	user
-,}
-	packet 
-Logout 
-{u16
-    reason  ,
-
-    }packet Empty
-
-    { }
-    root
-
-packet
-Frame
-{
-    u16
-MsgType
-,
-    u8  BodyLen @lengthOf(Body )  ,
-	u8
-flags ,	Logon
-Body ,
-	u32 
-trailer ,
-
-    } ")).
-Eval vm_compute in ("<<<M202>>>" ++ check (runes_of_ascii "packet Z9_
-    { @calculatedFrom( ""packet"") char //
-BodyLength , match chars as falsey {[65535,
-    // c
-    """ ++ [128512]%N ++ runes_of_ascii """ ,""" ++ [28040; 24687]%N ++ runes_of_ascii """ , ""`tick`""  , 10,
-    ""a\\"" ,""a\""b"" // @lengthOf(
-]: repeatCount , ""x y"" :chars , // " ++ [128512]%N ++ runes_of_ascii " emoji
-65535
-://x
-calculatedFrom , } , }
-")).
-Eval vm_compute in ("<<<M1676>>>" ++ check (runes_of_ascii "// top
-options {
-    f32a = 0
-}// c5
-
-packet trueish {
-    // c8
-}
-
-// c9
-MetaData _x {
-    char[0123456789] zchar,// c17a
-    // c17b
-    string crc,
-    // c20
-    char[1] options1,
-    uint8 repeatCount,// c28
-}// c29")).
-Eval vm_compute in ("<<<M311>>>" ++ check (runes_of_ascii "MetaData
-falsey { Header falsey
-`
-` , string Foo `" ++ [28040; 24687; 31867; 22411]%N ++ runes_of_ascii "`
-    // `tick` ""quote"" 'q'
-    ,falsey repeatCount , i8
-u , }
-packet A	{ match _x as T { 007: lengthOf// `tick` ""quote"" 'q'
-}, } 	 ")).
-Eval vm_compute in ("<<<M1836>>>" ++ check (runes_of_ascii "packet A {
-    match k as n {
-        [
-            ""a"", 22, ""c c"", 4, ""e"",
-            66, ""g"", 8, ""i"", 10,
-            ""k"", 12
-        ] : B,
-        2 : C,
-    },
-}")).
-Eval vm_compute in ("<<<M250>>>" ++ check (runes_of_ascii "MetaData // a // b
-o {string Foo
-    , }
-MetaData  msg_type { Header len `" ++ [28040; 24687; 31867; 22411]%N ++ runes_of_ascii "`
-,
     }
-options
-{ tag
-= '0' ;
-    o=
-""CRC32"" ; Logon = ""`tick`"" ;// a // b
+
+    , }// " ++ [27880; 37322]%N ++ runes_of_ascii "
+	MetaData
+A// a // b
+      {
+zchar/// triple
+    matchKey
+
+    ``,
+int64	metadata,
+	char[] _x 	 //	t
+    ,
+    }")).
+Eval vm_compute in ("<<<M1765>>>" ++ check (runes_of_ascii "packet leftPad {
+    match A as x {
+        ""`tick`"" : MetaDataX,
+        [""it's"", ""\n"", """ ++ [28040; 24687]%N ++ runes_of_ascii """] : string_,
+        0123456789 : o,
+        [""{,}"", ""x y""] : uint8x,
+    },
+    char[3] msg_type @lengthOf(u) `two words`,
+    // c
+    repeat int Foo,
+    @rightPad()
+    @rightPad(' ')
+    Foo charz `{ , }`,
+}
+
+MetaData A {
+    zchar[0] A `{ , }`,
+    float32 a1,
+    char[] pack,/// triple
+    string body `" ++ [233]%N ++ runes_of_ascii "`,
+    string chars `doc`,
+    int _x `two words`,
+}
+
+options {
+    Z9_ = uint16;
 }")).
-Eval vm_compute in ("<<<M413>>>" ++ check (runes_of_ascii "packet uint8x
-{ match float32
+Eval vm_compute in ("<<<M180>>>" ++ check (runes_of_ascii "options
+    // @lengthOf(
+    {}
+packet charz { @rightPad (  ' ') @calculatedFrom(
+    ""a\\"" ) repeat int	crc `two words` , string stringy
+    @calculatedFrom( ""a	b""
+    // " ++ [128512]%N ++ runes_of_ascii " emoji
+    )`// not a comment`	,//
+char i8i8,
+}  MetaData	crc {// `tick` ""quote"" 'q'
+crc i64_`{ , }`
+,
+    // `tick` ""quote"" 'q'
+    i32// c
+u128 ,// packet A { u8 x, }
+BodyLength Header
+    ,char[ 0123456789]
+/// triple
+//
+Packet `u8 x,`
+, uint8 repeatCount , //	t
+}")).
+Eval vm_compute in ("<<<M1642>>>" ++ check (runes_of_ascii "
+
+  packet
+
+    BodyLength {repeatCount// packet A { u8 x, }
+`// not a comment` ,
+	@lengthOf(	lengthOf )	@tag(65535 
+) 
+@rightPad 
+( 
+// @lengthOf(
+	  //	t
+'0'
+
+)	/// triple
+	  u8
+	Logon
+,
+} packet  chars
+	{ 
+o msg_type	, @tag(
+	10
+
+    )
+zchar[	65535]
+f32a
+
+    ,repeat char[]  i64_
+	`
+`
+
+    ,	} root  packet
+	f32a{
+    @tag(
+
+    255
+
+    ) 
+repeat u8
+
+    stringy 
+, 
+}
+
+")).
+Eval vm_compute in ("<<<M15>>>" ++ check (runes_of_ascii "MetaData // c
+u128{
+    }MetaData
+    a1 {
+}
+    root packet	o {	char[
+10 ]  stringy @lengthOf( Z9_) ,
+match
+x_y_z as stringy
+{	3
+: float ,
+    } , @leftPad //	t
+( ' '
+    ) u128 {	repeat i32 msg_type `crlf
+line` , x	, repeat char[	65535
+] T, match
+    A as
+i8i8 { """ ++ [128512]%N ++ runes_of_ascii """ : Logon
+, } //
+, } ,
+@rightPad (  '\x00') repeat x_y_z options1 `two words` , }
+")).
+Eval vm_compute in ("<<<M368>>>" ++ check (runes_of_ascii "MetaData T
+    {
+uint8
+float ,
+repeatCount x ,	char[ 10  ] asx /// triple
+, char[ 00]
+metadata
+    `" ++ [233]%N ++ runes_of_ascii "` ,u8x asx//	t
+, } MetaData
+    trueish {	charz	string_ `crlf
+line`,  zchar[ 42 ]	_x
+//
+// `tick` ""quote"" 'q'
+, }packet o { char[]u8x
+    @calculatedFrom(""abc""  ) , } options{ x
+=
+    255 ; u // " ++ [27880; 37322]%N ++ runes_of_ascii "
+= '0'	}
+")).
+Eval vm_compute in ("<<<M1633>>>" ++ check (runes_of_ascii "
+options{	LittleEndian=
+true
+
+; 
+}  packet Logon	{u8  x
+    ,
+    string
+user
+,  }	packet
+Logout
+
+    {
+
+    u16
+reason ,
+	}packet
+	Empty { }
+
+root
+packet
+
+Frame 
+{ u16
+
+    MsgType , u8
+	BodyLen  @lengthOf(
+Body
+    ) ,	u8	flags
+
+,  Logon
+
+Body 
+,
+u32 trailer ,  }")).
+Eval vm_compute in ("<<<M1919>>>" ++ check (runes_of_ascii "
+root packet string_ 
+{@leftPad
+	( ' '  ) chars {
+repeat zchar[
+
+    0	]
+
+    tag ,
+
+    string	falsey ,// " ++ [128512]%N ++ runes_of_ascii " emoji
+	  repeat
+    char[
+	007  ]
+    body	`two words`
+	,
+
+}
+,
+@calculatedFrom(
+""// no comment"" ) Foo
+	T
+    ,// " ++ [128512]%N ++ runes_of_ascii " emoji
+}
+")).
+Eval vm_compute in ("<<<M1427>>>" ++ check (runes_of_ascii "// top
+MetaData leftPad {
+    // c2
+    chars MetaDataX,
+    // c5
+}
+
+// c6
+packet repeatCount {
+    // c9
+    char[255] uint8x `" ++ [233]%N ++ runes_of_ascii "`,
+    // c15
+}
+
+// c16
+MetaData pack {
+    // c19
+    As Foo,
+    // c22
+}
+// c23")).
+Eval vm_compute in ("<<<M1323>>>" ++ check (runes_of_ascii "root packet Frame {
+    u8 K,
+    Logon first,
+    match K as Body {
+        1 : Logon,
+        2 : Logout,
+    },
+}
+packet Logon {
+    string user,
+}
+packet Logout {
+    u16 reason,
+}
+")).
+Eval vm_compute in ("<<<M1777>>>" ++ check (runes_of_ascii "MetaData falsey  {
+o
+i8i8
+,
+
+char[]
+
+    pack
+    ,float32
+
+    lengthOf
+
+    ,	len //x
+    	BodyLength
+
+, 
+BodyLength 
+o
+
+, stringy	u128`crlf
+line`
+	,}
+")).
+Eval vm_compute in ("<<<M406>>>" ++ check (runes_of_ascii "packet uint8x
+{ match match pack
     as msg_type	{
     0123456789 :	float
 }
@@ -972,281 +945,266 @@ a1
     { } options {packetx
     = '\x00'	; u128= ""a	b""  ; }
 ")).
-Eval vm_compute in ("<<<M672>>>" ++ check (runes_of_ascii "// @lengthOf(
+Eval vm_compute in ("<<<M401>>>" ++ check (runes_of_ascii "packet uint8x
+{ { match pack
+    as msg_type	{
+    0123456789 :	float
+}
+,
+} packet //	t
+a1
+    { } options {packetx
+    = '\x00'	; u128= ""a	b""  ; }
+")).
+Eval vm_compute in ("<<<M549>>>" ++ check (runes_of_ascii "pa\cket uint8x
+{ match pack
+    as msg_type	{
+    0123456789 :	float
+}
+,
+} packet //	t
+a1
+    { } options {packetx
+    = '\x00'	; u128= ""a	b""  ; }
+")).
+Eval vm_compute in ("<<<M507>>>" ++ check (runes_of_ascii "packet uint8x
+{ match pack
+    as msg_type	{
+    0123456789 :	float
+}
+,
+} packet //	t
+a1
+    { } options {packetx
+    = '\x00'	u128 ;= ""a	b""  ; }
+")).
+Eval vm_compute in ("<<<M465>>>" ++ check (runes_of_ascii "packet uint8x
+{ match pack
+    as msg_type	{
+    0123456789 :	float
+}
+,
+} packet //	t
+
+    { } options {packetx
+    = '\x00'	; u128= ""a	b""  ; }
+")).
+Eval vm_compute in ("<<<M684>>>" ++ check (runes_of_ascii "// @lengthOf(
 packet i8i8 { u128 o , }
 options { MetaDataX = true;
     BodyLength =""packet"" x_y_z= 007
 crc //x
 = ""abc"" ;
     msg_type =
-@leftpad i16 }")).
-Eval vm_compute in ("<<<M457>>>" ++ check (runes_of_ascii "packet uint8x
-{ match pack
-    as msg_type	{
-    0123456789 :	float
-}
-,
-packet } //	t
-a1
-    { } options {packetx
-    = '\x00'	; u128= ""a	b""  ; }
-")).
-Eval vm_compute in ("<<<M485>>>" ++ check (runes_of_ascii "packet uint8x
-{ match pack
-    as msg_type	{
-    0123456789 :	float
-}
-,
-} packet //	t
-a1
-    { } options packetx
-    = '\x00'	; u128= ""a	b""  ; }
-")).
-Eval vm_compute in ("<<<M1663>>>" ++ check (runes_of_ascii "options {
-    body = """ ++ [28040; 24687]%N ++ runes_of_ascii """
-}
-
-packet matchKey {
-    string_ @lengthOf(f32a),
-    int32 int @lengthOf(u128),
-    tag x_y_z,
-}
-
-packet BodyLength {
-}")).
-Eval vm_compute in ("<<<M423>>>" ++ check (runes_of_ascii "packet uint8x
-{ match pack
-    as ,	{
-    0123456789 :	float
-}
-,
-} packet //	t
-a1
-    { } options {packetx
-    = '\x00'	; u128= ""a	b""  ; }
-")).
-Eval vm_compute in ("<<<M1647>>>" ++ check (runes_of_ascii "
-options
-
-    {
-	o=  '\x00'	// " ++ [128512]%N ++ runes_of_ascii " emoji
-  ;
-    T=	u32 ; 
-msg_type  
-      // `tick` ""quote"" 'q'
-
-//
-    = ""a	b""a1 =	'\x00'	}
-	// " ++ [128512]%N ++ runes_of_ascii " emoji")).
-Eval vm_compute in ("<<<M1298>>>" ++ check (runes_of_ascii "packet
-A
-{ 
-u8 a,
-}
-
-packet
-    B {
-
-u16  b
-,} 
-root	packet	P
-{ u8
-K
-
-,
-
-    match	K
-
-as M	{1
-    :
-A,
-
-1	: 
-B 
-, }
-,
-
-    }
-
-")).
-Eval vm_compute in ("<<<M1541>>>" ++ check (runes_of_ascii "packet A {
-    match k as n {
-        [
-            1, 22, ""c c"", 4, 5,
-            ""f"", 7
-        ] : B,
-        2 : C,
-    },
-}")).
-Eval vm_compute in ("<<<M1778>>>" ++ check (runes_of_ascii "//
-packet
-metadata	{ 
-} 
-MetaData
-
-    chars
-	    //x
-	//	t
-	{
-char[42
-    ]
-
-leftPad `crlf
-line`
-    ,
-
-    }
-
-")).
-Eval vm_compute in ("<<<M1165>>>" ++ check (runes_of_ascii "MetaData leftPad { chars MetaDataX , } packet repeatCount { char[ 255 // c
-] uint8x `" ++ [233]%N ++ runes_of_ascii "` , } MetaData pack { As Foo , }")).
-Eval vm_compute in ("<<<M938>>>" ++ check (runes_of_ascii "packet A {
-    Inner {
-        u8 x `a
-    b
-  c`,
-        Deep {
-            u8 y `a
-    b
-  c`,
-        },
-    },
-}")).
-Eval vm_compute in ("<<<M1909>>>" ++ check (runes_of_ascii "packet
-
-    A
-{ match
-	k as n  {	[ ""a""
-    ,
-""bb""
-    ,
-	""c c""
-
-,
-
-""d""
-]
-
-    : B
-
-    2
-
-:
-	C 
-} , } ")).
-Eval vm_compute in ("<<<M931>>>" ++ check (runes_of_ascii "packet A {
-    u16 len @lengthOf(body) `
-`,
-    u32 crc @calculatedFrom(""CRC32"") `
-`,
-    string body,
-}")).
-Eval vm_compute in ("<<<M956>>>" ++ check (runes_of_ascii "packet A {
+i16 } }")).
+Eval vm_compute in ("<<<M685>>>" ++ check (runes_of_ascii "// @lengthOf(
+packet i8i8 { u128 o , }
+options { MetaDataX = true;
+    BodyLength =""packet"" x_y_z= 007
+crc //x
+= ""abc"" ;
+    = msg_type
+i16 }")).
+Eval vm_compute in ("<<<M1452>>>" ++ check (runes_of_ascii "packet A {
     Inner {
         u8 x `
-x`,
+                x`,
         Deep {
             u8 y `
-x`,
+                        x`,
         },
     },
 }")).
-Eval vm_compute in ("<<<M199>>>" ++ check (runes_of_ascii "packet falsey { string a1 @lengthOf( packetx ) , }
-packet	int { Header	@lengthOf( stringy)
-, }")).
-Eval vm_compute in ("<<<M1859>>>" ++ check (runes_of_ascii "packet u {
-    repeat A,
-    @lengthOf(lengthOf)
-    repeat i64 i64_,//
-    zchar[3] body,
-}")).
-Eval vm_compute in ("<<<M1675>>>" ++ check (runes_of_ascii "
-packet
-	A {
-
-    Inner {match
-    k
-
-as
-
-    n {
-
-[	1  ]
-    : 
-B ,
-    } ,
+Eval vm_compute in ("<<<M719>>>" ++ check (runes_of_ascii "// @lengthOf(
+packet i8i8 { u128 o , }
+options { MetaDataX = true;
+     =""packet"" x_y_z= 007
+crc //x
+= ""abc"" ;
+    msg_type =
+i16 }")).
+Eval vm_compute in ("<<<M1875>>>" ++ check (runes_of_ascii "root packet lengthOf {
+    @leftPad(' ')
+    repeat char MetaDataX,
 }
-, }
+
+MetaData Pad {
+    msg_type rootA `// not a comment`,
+}")).
+Eval vm_compute in ("<<<M1842>>>" ++ check (runes_of_ascii "packet A {
+    Inner {
+        u8 x `x
+        `,
+        Deep {
+            u8 y `x
+            `,
+        },
+    },
+}")).
+Eval vm_compute in ("<<<M1171>>>" ++ check (runes_of_ascii "MetaData leftPad { chars MetaDataX , } packet repeatCount { char[ 255 ] uint8x `" ++ [233]%N ++ runes_of_ascii "` // c
+, } MetaData pack { As Foo , }")).
+Eval vm_compute in ("<<<M302>>>" ++ check (runes_of_ascii "packet string_{@lengthOf(	float ) // @lengthOf(
+BodyLength { match uint8x as i64_ { 0123456789
+: As
+    , } , } , }")).
+Eval vm_compute in ("<<<M1478>>>" ++ check (runes_of_ascii "
+packet
+    A {
+match k as
+
+    n { 
+[
+
+1 ,
+22 ,007 
+,
+	4
+	, 
+5
+
+, 66 ]  :  B ,
+
+    2
+	:  C}
+    , }
+
 ")).
-Eval vm_compute in ("<<<M622>>>" ++ check (runes_of_ascii "
+Eval vm_compute in ("<<<M158>>>" ++ check (runes_of_ascii "
+MetaData charz { As u128 , Logon options1 `say ""hi""` ,
+    zchar[ 0
+// @lengthOf(
+//
+]Logon ,
+    }
+")).
+Eval vm_compute in ("<<<M1558>>>" ++ check (runes_of_ascii "root packet
+SimpleMessage
+
+{uint16 
+MsgType
+
+`" ++ [28040; 24687; 31867; 22411]%N ++ runes_of_ascii "`,  string
+
+JsonBody
+`Json" ++ [23383; 31526; 20018; 28040; 24687; 20307]%N ++ runes_of_ascii "` ,
+
+    }
+")).
+Eval vm_compute in ("<<<M624>>>" ++ check (runes_of_ascii "
 packet
     asx {match u128 as lengthOf
 {
 //	t
 // `tick` ""quote"" 'q'
 255 : x ,
-    } ,	")).
-Eval vm_compute in ("<<<M1425>>>" ++ check (runes_of_ascii "packet A {
-    match k as n {
-        [1, 22, 007, 4, 5] : B,
-        2 : C,
-    },
-}")).
-Eval vm_compute in ("<<<M848>>>" ++ check (runes_of_ascii "packet A {
-  match k as n {
-    [1, 22, ""c c"", 4, 5, ""f"", 7] : B
-    2 : C
-  },
-}")).
-Eval vm_compute in ("<<<M1928>>>" ++ check (runes_of_ascii "
-
-  packet  body
-
-    {
-    i32 f32a
-
-`{ , }`
-
-    ,
-} options	// c
-
-	{} ")).
-Eval vm_compute in ("<<<M91>>>" ++ check (runes_of_ascii "packet
-roots{ }	MetaData
-    metadata{
-asx matchKey ,
-uint64
-rootA , }")).
-Eval vm_compute in ("<<<M795>>>" ++ check (runes_of_ascii "packet A {
-  match k as n {
-    [1, 22, ""c c""] : B,
-    2 : C
-  },
-}")).
-Eval vm_compute in ("<<<M155>>>" ++ check (runes_of_ascii "options
-{calculatedFrom
-= ""abc""
-;float=i16
-} // trailing space ")).
-Eval vm_compute in ("<<<M1091>>>" ++ check (runes_of_ascii "packet A { @leftPad() char[4] x, @rightPad( ) zchar[2] y, }")).
-Eval vm_compute in ("<<<M148>>>" ++ check (runes_of_ascii "options
-{
-    a1	=""packet""// a // b
-; } // @lengthOf(")).
-Eval vm_compute in ("<<<M1212>>>" ++ check (runes_of_ascii "packet body { i32 f32a `{ , }` ,
-// c
-} options { }")).
-Eval vm_compute in ("<<<M927>>>" ++ check (runes_of_ascii "MetaData M {
-    u8 x `a
-b`,
-    T t `a
-b`,
-}")).
-Eval vm_compute in ("<<<M596>>>" ++ check (runes_of_ascii "
+    } ,	repeat")).
+Eval vm_compute in ("<<<M603>>>" ++ check (runes_of_ascii "
 packet
     asx {match u128 as lengthOf
-{")).
-Eval vm_compute in ("<<<M1839>>>" ++ check (runes_of_ascii "
+{
+//	t
+// `tick` ""quote"" 'q'
+255 : x x ,
+    } ,	}")).
+Eval vm_compute in ("<<<M574>>>" ++ check (runes_of_ascii "
+packet
+    asx {match as u128 lengthOf
+{
+//	t
+// `tick` ""quote"" 'q'
+255 : x ,
+    } ,	}")).
+Eval vm_compute in ("<<<M643>>>" ++ check (runes_of_ascii "
+packet
+    asx {match x" ++ [178]%N ++ runes_of_ascii " as lengthOf
+{
+//	t
+// `tick` ""quote"" 'q'
+255 : x ,
+    } ,	}")).
+Eval vm_compute in ("<<<M866>>>" ++ check (runes_of_ascii "packet A {
+  match k as n {
+    [1, 22, 007, 4, 5, 66, 7, 8, 9] : B
+    2 : C
+  },
+}")).
+Eval vm_compute in ("<<<M823>>>" ++ check (runes_of_ascii "packet A {
+  match k as n {
+    [""a"", ""bb"", 007, ""d"", ""e""] : B,
+    2 : C
+  },
+}")).
+Eval vm_compute in ("<<<M1467>>>" ++ check (runes_of_ascii "root packet P {
+    u16 a,
+    u32 Sum @calculatedFrom(""CR\
+        C32""),
+}")).
+Eval vm_compute in ("<<<M1485>>>" ++ check (runes_of_ascii "
+
+  packet	body { i32 
+f32a
+`{ , }`
+	,
+
+    }
+
+options { 	 // c
+
+  }
+")).
+Eval vm_compute in ("<<<M1087>>>" ++ check (runes_of_ascii "packet A { match k as n { [ // a
+ 1 // b
+ , // c
+ 2 ] // d
+ : B }, }")).
+Eval vm_compute in ("<<<M1517>>>" ++ check (runes_of_ascii "
+
+  MetaData
+    M{
+
+    u8
+
+    x 
+`
+`  ,T
+    t `
+`
+	,}
+")).
+Eval vm_compute in ("<<<M1685>>>" ++ check (runes_of_ascii "packet body {
+    i32 f32a `{ , }`,
+}
+
+options {
+    // c
+}")).
+Eval vm_compute in ("<<<M1851>>>" ++ check (runes_of_ascii "
+packet
+
+A
+    {  u8
+    x , 
+    // c
+
+	u8
+y
+	,	}
+
+")).
+Eval vm_compute in ("<<<M1216>>>" ++ check (runes_of_ascii "packet body { i32 f32a `{ , }` , } options
+// c
+{ }")).
+Eval vm_compute in ("<<<M1582>>>" ++ check (runes_of_ascii "packet  MetaDataX	{i16 
+u128 
+`" ++ [233]%N ++ runes_of_ascii "`
+, 	 //x
+	}
+
+")).
+Eval vm_compute in ("<<<M724>>>" ++ check (runes_of_ascii "// @lengthOf(
+packet i8i8 { u128 o , }
+opt")).
+Eval vm_compute in ("<<<M1841>>>" ++ check (runes_of_ascii "
 
   packet
 
@@ -1255,28 +1213,29 @@ Eval vm_compute in ("<<<M1839>>>" ++ check (runes_of_ascii "
   //	t
  
 ")).
-Eval vm_compute in ("<<<M179>>>" ++ check (runes_of_ascii "// `tick` ""quote"" 'q'
-options {}")).
-Eval vm_compute in ("<<<M993>>>" ++ check (runes_of_ascii "packet A {
- u8 x `d" ++ [133]%N ++ runes_of_ascii "`, // c" ++ [133]%N ++ runes_of_ascii "
+Eval vm_compute in ("<<<M952>>>" ++ check (runes_of_ascii "root packet A {
+    u8 x `x
+`,
 }")).
-Eval vm_compute in ("<<<M655>>>" ++ check (runes_of_ascii "// @lengthOf(
-packet i8i8 {")).
-Eval vm_compute in ("<<<M576>>>" ++ check (runes_of_ascii "
+Eval vm_compute in ("<<<M1008>>>" ++ check (runes_of_ascii "packet A {
+ u8 x `d" ++ [8202]%N ++ runes_of_ascii "`, // c" ++ [8202]%N ++ runes_of_ascii "
+}")).
+Eval vm_compute in ("<<<M581>>>" ++ check (runes_of_ascii "
 packet
-    asx {match")).
-Eval vm_compute in ("<<<M59>>>" ++ check (runes_of_ascii "packet
-int {
+    asx {match u128")).
+Eval vm_compute in ("<<<M770>>>" ++ check (runes_of_ascii "EJYa-@ZpfaJe_ojrLyZC9M")).
+Eval vm_compute in ("<<<M211>>>" ++ check (runes_of_ascii "MetaData
+roots {
 }
-//	t
+
 ")).
-Eval vm_compute in ("<<<M278>>>" ++ check (runes_of_ascii "packet Packet { }
-")).
-Eval vm_compute in ("<<<M1052>>>" ++ check (runes_of_ascii "// c" ++ [65279]%N ++ runes_of_ascii "
+Eval vm_compute in ("<<<M982>>>" ++ check (runes_of_ascii "// c" ++ [12288]%N ++ runes_of_ascii "
 packet A {
 }")).
-Eval vm_compute in ("<<<M1226>>>" ++ check (runes_of_ascii "packet // c
-x { }")).
+Eval vm_compute in ("<<<M1083>>>" ++ check (runes_of_ascii "packet A { // a
+ }")).
+Eval vm_compute in ("<<<M1230>>>" ++ check (runes_of_ascii "packet x { // c
+}")).
 Eval vm_compute in ("<<<M740>>>" ++ check (runes_of_ascii ", = , ; int16")).
-Eval vm_compute in ("<<<M1005>>>" ++ check (runes_of_ascii "// c" ++ [8202]%N)).
-Eval vm_compute in ("<<<M734>>>" ++ check ([65279]%N)).
+Eval vm_compute in ("<<<M1000>>>" ++ check (runes_of_ascii "// c" ++ [8192]%N)).
+Eval vm_compute in ("<<<M731>>>" ++ check (runes_of_ascii "/")).
